@@ -244,7 +244,7 @@ Section Logging.
     - destruct buf as [|x buf]; [split; reflexivity|].
       unfold lphase. cbn [fst].
       destruct (probe (phase s) (x :: buf)) as [[f r]|]; [|split; reflexivity].
-      unfold lhandle. cbn [fst snd]. apply IH.
+      change (lhandle (s, log) f) with (handle s f, log ++ [f]). apply IH.
   Qed.
 
   Lemma lrecv_sim : forall s log buf c,
@@ -262,7 +262,7 @@ Section Logging.
     - exists []. rewrite app_nil_r. reflexivity.
     - destruct buf as [|x buf]; [exists []; rewrite app_nil_r; reflexivity|].
       destruct (probe (lphase (s, log)) (x :: buf)) as [[f r]|]; [|exists []; rewrite app_nil_r; reflexivity].
-      unfold lhandle. cbn [fst snd].
+      change (lhandle (s, log) f) with (handle s f, log ++ [f]).
       destruct (IH (handle s f) (log ++ [f]) r) as [more E]. exists (f :: more).
       rewrite E, <- app_assoc. reflexivity.
   Qed.
